@@ -192,11 +192,13 @@ end Pipfile
 
 /-! ### packages.lock.json — every entry of every target framework, a (name, resolved) pair once (fix 455d5282) -/
 namespace PackagesLock
-/-- framework ↦ (package name ↦ `resolved`) -/
-abbrev Doc := List (Str × List (Str × Str))
+/-- framework ↦ (package id ↦ (`resolved`, `type`)) -/
+abbrev Doc := List (Str × List (Str × Str × Str))
+/-- `info.Type == "Project"`: a reference to another project of the solution (skipped since the fix) -/
+def isProject (e : Str × Str × Str) : Bool := e.2.2 = "Project".toList
 /-- the `seen` map: the first occurrence of a (name, version) pair is kept -/
 def addOnce (acc : List NV) (p : NV) : List NV := if acc.contains p then acc else acc ++ [p]
-def entries (d : Doc) : List NV := d.flatMap fun fw => fw.2.map fun p => ⟨p.1, p.2⟩
+def entries (d : Doc) : List NV := d.flatMap fun fw => (fw.2.filter fun e => !isProject e).map fun p => ⟨p.1, p.2.1⟩
 def extract (d : Doc) : List NV := (entries d).foldl addOnce []
 end PackagesLock
 
